@@ -515,7 +515,15 @@ impl Module {
                 wasmparser::Name::Local(l) => {
                     for f in l {
                         let f = f?;
-                        let func_id = indices.get_func(f.index)?;
+                        // A reference to a function that does not exist must
+                        // not discard the rest of the name section.
+                        let func_id = match indices.get_func(f.index) {
+                            Ok(id) => id,
+                            Err(e) => {
+                                warn!("in name section: {}", e);
+                                continue;
+                            }
+                        };
                         for name in f.names {
                             let naming = name?;
                             // Looks like tools like `wat2wasm` generate empty
